@@ -57,7 +57,7 @@ Theorem C17_spacing_after_last_change : forall n0 w0 t0 ls1 s ls2 s',
 Proof. exact spacing_after_last_change. Qed.
 Print Assumptions C17_spacing_after_last_change.
 
-(** What does not hold.  (R1) the code before the fix 065c919: growing left the cursor on the
+(** What does not hold.  (R1) the code before the fix c9d1e5e: growing left the cursor on the
     oldest stamp, shrinking then kept empty slots and dropped live stamps — a fourth admission
     within 199 of a 600 window at limit 3, computed under that very configuration. *)
 Theorem C17_grow_shrink_forgets_live_stamp_orig_refuted :
